@@ -150,4 +150,12 @@ PROPS = {
             R("h26", "c07", "TestC07_Race", (300, 6, 1500), (6000, 8, 8000), race=True),
         ],
     },
+    "C09": {
+        "level": "exploration",
+        "units": [
+            R("h26", "c09", "TestC09_Direct", (1500, 8, 1500), (100000, 16, 8000)),
+            E("h26", "c09", "TestC09_LRUExhaustive", (8, 1500), (16, 8000)),
+            R("h23", "c09p", "TestC09_Pubsub", (40, 1, 600), (1500, 4, 3000)),
+        ],
+    },
 }
